@@ -139,6 +139,41 @@ func (r *RMRemoting) RegisterResource(resource Resource) error {
 	return nil
 }
 
+func init() {
+	getty.RegisterOnSessionOpen(reannounceResources)
+}
+
+// reannounceResources tells a coordinator session that has just been opened which resources this client
+// manages. A coordinator forgets a client's resources when the connection is lost; without this a client that
+// reconnects is known as transaction manager only and is never asked to commit or roll back its branches.
+func reannounceResources(send func(msg interface{}) error) {
+	GetRmCacheInstance().resourceManagerMap.Range(func(_, manager interface{}) bool {
+		resources := manager.(ResourceManager).GetCachedResources()
+		if resources == nil {
+			return true
+		}
+		resources.Range(func(_, value interface{}) bool {
+			resource, ok := value.(Resource)
+			if !ok {
+				return true
+			}
+			req := message.RegisterRMRequest{
+				AbstractIdentifyRequest: message.AbstractIdentifyRequest{
+					Version:                 "1.5.2",
+					ApplicationId:           rmConfig.ApplicationID,
+					TransactionServiceGroup: rmConfig.TxServiceGroup,
+				},
+				ResourceIds: resource.GetResourceId(),
+			}
+			if err := send(req); err != nil {
+				log.Errorf("announcing resource %s on a new session: %v", resource.GetResourceId(), err)
+			}
+			return true
+		})
+		return true
+	})
+}
+
 func isQueryLockSuccess(response interface{}) bool {
 	if res, ok := response.(message.GlobalLockQueryResponse); ok {
 		return res.Lockable
